@@ -1,10 +1,12 @@
 #!/bin/bash
-# usage: tools/runall.sh [quick|thorough] [seed]  - runs every claimed check sequentially
-tier="${1:-quick}"; seed="${2:-1}"
+# usage: tools/runall.sh [quick|thorough] [seed] [property ...]  - runs the claimed checks (default: all) sequentially
+tier="${1:-quick}"; seed="${2:-1}"; shift 2 2>/dev/null
 cd /verif
-for p in $(python3 -c "import json;print(' '.join(c['property_id'] for c in json.load(open('MANIFEST.json'))['checks']))"); do
+props="$*"
+[ -z "$props" ] && props=$(python3 -c "import json;print(' '.join(c['property_id'] for c in json.load(open('MANIFEST.json'))['checks']))")
+for p in $props; do
   t0=$(date +%s)
   out=$(VERIF_SEED=$seed ./check $p --tier $tier 2>&1); rc=$?
   echo "$p rc=$rc $(( $(date +%s)-t0 ))s $(echo "$out" | tail -1)"
-  if [ $rc -ne 0 ]; then echo "$out" | grep -E "VIOLATION|INCONCLUSIVE" | head -5; fi
+  if [ $rc -ne 0 ]; then echo "$out" | grep -E "VIOLATION|INCONCLUSIVE|^>>" | head -8; fi
 done
